@@ -365,3 +365,16 @@ CONTRACTS += [
                       ('the-extract-result-handed-in-is-not-rewritten', 'source.text == old(source).text')],
              note='two characters standing for any characters (letters as place holders), an arbitrary traditional-to-simplified table'),
 ]
+
+# ---- C12 (Chinese merged extractor): entries swallowed by a new, longer entity are removed wherever they sit in the list
+ZME = DT + 'chinese/merged_extractor.py::ChineseMergedExtractor.'
+CONTRACTS += [
+    Contract('c12.chinese.move_overlap', ZME + 'move_overlap', ['C12'], unroll=6,
+             params=dict(self=Rec(DT + 'chinese/merged_extractor.py::ChineseMergedExtractor', {}),
+                         d0=_E(0), d1=_E(1), src=_E(2), destination=Expr('[d0, d1]'), source=Expr('src')),
+             ensures=[('an-entry-whose-text-is-part-of-the-new-entity-and-that-shares-its-start-or-its-end-is-dropped',
+                       ' and '.join(f'((len([r for r in result if r is d{i}]) == 0) == (d{i}.text in src.text and '
+                                    f'(src.start == d{i}.start or src.start + src.length == d{i}.start + d{i}.length)))' for i in range(2))),
+                      ('nothing-else-changes', 'len(result) <= 2')],
+             note='two existing entries with arbitrary spans and texts, one new entity; ends are exclusive (start + length)'),
+]
